@@ -745,6 +745,16 @@ func (c *HttpClient) parseIPCStream(raw *bytes.Reader, expected *arrow.Schema, t
 	}
 	defer reader.Release()
 	if expected != nil && !clientSchemasEqual(reader.Schema(), expected) {
+		// An error envelope is framed with whatever schema the server had at
+		// hand (a failed stream init uses the empty schema), so look for the
+		// server's exception before reporting the mismatch that hides it.
+		for reader.Next() {
+			record := reader.RecordBatch()
+			metadata := recordMetadata(record)
+			if record.NumRows() == 0 && metadata[MetaLogLevel] == string(LogException) {
+				return nil, rpcErrorFromMetadata(metadata)
+			}
+		}
 		return nil, &RpcError{Type: "TypeError", Message: fmt.Sprintf("response schema mismatch: expected %s, got %s", expected, reader.Schema())}
 	}
 	parsed := &parsedClientStream{}
